@@ -33,7 +33,7 @@ def _pad_post(A, r):
     return And(Eq(r.len, P), ForAll(lambda i: Eq(r.fn(i), If(Z(i) < Z(m), s.values.fn(i), fill)), 0, P, "i"))
 
 
-contract(f"{PAD}::PaddingTransformer._create_pad", "C14", cases=["-"], inputs=_pad_inputs,
+contract(f"{PAD}::PaddingTransformer._create_pad", "C14,C12", cases=["-"], inputs=_pad_inputs,
          pre=lambda A: Z(A.series.index.len) <= Z(A.self.attrs["pad_length_"]),      # transform rejects longer series before calling
          ensures=[("series-then-fill-value-up-to-the-pad-length", _pad_post)], frame=lambda A: [A.self, A.series])
 
@@ -128,7 +128,7 @@ def _sw_outer_events(S, evs):
     return And(Eq(idx, S.k), (v is S.data))
 
 
-contract(f"{SEG}::SlidingWindowSegmenter.transform", "C14,C16", cases=["-", "not-int"], inputs=_sw_inputs,
+contract(f"{SEG}::SlidingWindowSegmenter.transform", "C14,C16,C12", cases=["-", "not-int"], inputs=_sw_inputs,
          raises=[("ValueError", lambda A: Or(Z(A.X.shape[1]) > 1, And(ops.is_intlike(A.self.attrs["window_length"]), A.self.attrs["window_length"] <= 0))),
                  ("TypeError", lambda A: And(Z(A.X.shape[1]) <= 1, not ops.is_intlike(A.self.attrs["window_length"])))],
          invariants={0: _sw_inv_pad, 1: _sw_inv_sub, 2: _sw_sub_done, 3: _sw_inv_inner},
@@ -202,7 +202,7 @@ def _iseg_post(A, r):
     return And(*conds)
 
 
-contract(f"{SEG}::IntervalSegmenter.transform", "C14,C16", cases=["1", "2", "3"], inputs=_iseg_inputs,
+contract(f"{SEG}::IntervalSegmenter.transform", "C14,C16,C12", cases=["1", "2", "3"], inputs=_iseg_inputs,
          raises=[("ValueError", lambda A: Z(A.X.shape[1]) > 1)],
          ensures=[("block-k-is-the-fitted-interval-k-of-every-instance", _iseg_post)],
          frame=lambda A: [A.self, A.X],
